@@ -1,6 +1,8 @@
 pub mod fen;
 pub mod hash;
 pub mod movegen;
+pub mod search;
+pub mod searchsem;
 pub mod statics;
 pub mod timectl;
 use crate::runner::{CaseResult, Ctx};
@@ -53,6 +55,34 @@ pub fn run(ctx: &mut Ctx) -> bool {
             ctx.assumptions = vec!["a more cautious policy than the stated bound is not a violation (the property says 'at most')".into()];
             timectl::run_c09_pure(ctx);
         }
+        "C07" => {
+            ctx.level = "fault_enumeration".into();
+            ctx.max_shrink_iters = 48;
+            ctx.rule = "Fault = expiry of the time allowance at the k-th consultation of the clock (virtual clock hook). For each generated game-like position (corpus walks, endgames with few men so iterations 4-6 and the null-move branch are inside the bound, with and without repetition history built by the engine's own `position` handler) a reference search with a large allowance is run, then EVERY expiry point k = 0..=K and a few sampled deeper ones. Oracle per run: no panic; repetition table restored (key->count, absent == 0); at least one board sent; every sent board is the oracle's position after a legal root move; with no completed evaluation exactly one board, first in the move ordering; lines and moves are a prefix of the reference run's (a larger allowance only extends), prefix length monotone in k; no sentinel in a score. evaluations = searches executed. Non-trivial = expiry strictly inside the search (0 < k < last consultation); distinct by (game, k).".into();
+            ctx.assumptions = vec!["the virtual clock replaces utils::out_of_time's wall clock reading (cfg feature verif); it is monotone like the real clock".into(), "OS scheduling between the two threads of the real binary is not part of this check (see C03/C08)".into()];
+            search::run_expiry(ctx, search::Mode::C07);
+        }
+        "C18" => {
+            ctx.max_shrink_iters = 48;
+            ctx.rule = "Cases are searches: for generated game-like positions (as C07) the search is run under the virtual clock at every expiry point 0..=K plus sampled deeper ones, and every captured info line of every run is parsed strictly as `info pv <moves> depth D nodes N score (cp X|mate Y) time T`; D >= 1 and non-decreasing, Y != 0 and |Y| <= 100, |X| <= 100000 and never the 9999999 sentinel, first pv move legal in the searched position (oracle), scores strictly increasing within one depth on a unified scale. Black-box part: the same line checks on the real binary's output in timed sessions. evaluations = searches executed. Non-trivial = a search emitting two or more lines at one depth or a mate score; distinct by game.".into();
+            ctx.assumptions = vec!["output captured through the uci::send_to_gui hook (same formatting code path as stdout)".into()];
+            search::run_expiry(ctx, search::Mode::C18);
+        }
+        "C10" => {
+            ctx.rule = "Counts: cases are games with a repetition tail (a walk, then 0-25 out-and-back four-ply cycles, optionally cut short; from startpos, corpus and constructed starts) given to the engine's `position` handler; for every distinct position of the game (oracle identity: placement, side, rights, en passant target) the repetition record must hold exactly its multiplicity and the record's total must be plies+1. Search: games in which the side to move has a move into a position that already occurred >= 2 times (2..6 cycles, endgames with a material gap so the loser is often to move); the last info line of every completed depth 1..4 must be cp >= 0 or mate > 0, and the record is left as given. Non-trivial: a history with a position of multiplicity >= 2 (counts); the side to move materially lost (static eval < -150) with such a move available (search); distinct by game.".into();
+            ctx.assumptions = vec!["position identity uses the FEN convention for the en passant target (set after every double step), which both the engine and the oracle follow".into(), "the reset between `position` commands inside the UCI loop is exercised black-box (C16 sessions)".into()];
+            searchsem::run_c10(ctx);
+        }
+        "C11" => {
+            ctx.rule = "Cases are positions built by a near-mate constructor (cornered king, 1-3 heavy attackers or a seventh-rank pawn, defender's men as self-blocks), variants moving the mating piece back along its own move or replacing a mating N/R/B on the last rank by a pawn about to promote (mates deliverable only by under-promotion), positions one or two plies before those, and endgame / game walks. The oracle's solver classifies each (mate in 1, mate in 1 only by under-promotion/castling/en passant, avoidable mate-in-1 threat, unavoidable, stalemate available, none). Under the virtual clock: (i) mate in 1 exists => every move handed back from the first depth-2 line on mates (timeline of the reference run, confirmed by real re-runs); (ii) avoidable threat => from the first depth-3 line on the move played does not allow mate in 1; (iii) `mate N` with N>0 on any line => the solver finds a forced mate in <= N; N<0 on the last line of a completed depth => the side to move is mated within |N|; mate 0 never; |N|>3 or solver budget exceeded = unjudged. Non-trivial = class is not `none`; distinct by position.".into();
+            ctx.assumptions = vec!["mate solver: bounded AND/OR search over the oracle's legal moves (self-tested)".into()];
+            searchsem::run_c11(ctx);
+        }
+        "C12" => {
+            ctx.rule = "Cases are game-like positions with their game history (walks from the game-like corpus, near-mate placements, half with repetition cycles incl. counts >= 3). Reference model: plain fail-soft alpha-beta without PVS, killers, null move or ordering dependence over the engine's own generate_moves / get_evaluation / is_check with the engine's leaf rules in its order (repetition -> 0, depth 0 in check -> extend, else capture quiescence with stand-pat, no moves -> mate distance or 0), itself validated every run against unpruned minimax on small positions. The engine runs under the virtual clock until a depth-4 line appears; for d = 1,2,3 the last info line of depth d must report exactly the reference value (same cp/mate formatting) and the move sent last at that depth must attain it. Non-trivial = the value differs from the static evaluation after the first-ordered move, or a repetition / mate / stalemate leaf was reached; distinct by game.".into();
+            ctx.assumptions = vec!["reference model in harness/src/props/searchsem.rs; agreement of its pruned and unpruned forms is checked on every run".into()];
+            searchsem::run_c12(ctx);
+        }
         _ => return false,
     }
     true
@@ -67,6 +97,11 @@ pub fn replay(prop: &str, _family: &str, case: &Value) -> CaseResult {
         "C06" => statics::replay_c06(case),
         "C14" => statics::replay_c14(case),
         "C15" => fen::replay_c15(case),
+        "C10" => searchsem::replay_c10(case),
+        "C11" => searchsem::replay_c11(case),
+        "C12" => searchsem::replay_c12(case),
+        "C07" => search::replay_expiry(case, search::Mode::C07),
+        "C18" => search::replay_expiry(case, search::Mode::C18),
         "C09" => timectl::replay_c09_pure(case).unwrap_or_else(|| Err("unknown C09 replay case".into())),
         "C05" => hash::replay_c05(case),
         _ => Err(format!("no replay for property {}", prop)),
